@@ -226,6 +226,76 @@ func genAssertions(r *rec.Rand, w *rec.Writer) []*openfgav1.Assertion {
 	return out
 }
 
+// deriveList builds a list from the one currently stored under a pair by ONE small change, so
+// that rewrites of a pair differ from what is stored in a single field only.
+func deriveList(r *rec.Rand, w *rec.Writer, prev []*openfgav1.Assertion) []*openfgav1.Assertion {
+	out := cloneAll(prev)
+	if len(out) == 0 {
+		out = []*openfgav1.Assertion{genAssertion(r, 0)}
+	}
+	i := r.Intn(len(out))
+	a := out[i]
+	plainCT := func() *openfgav1.TupleKey {
+		return &openfgav1.TupleKey{Object: "document:" + rec.Pick(r, []string{"1", "2"}), Relation: "viewer", User: rec.Pick(r, []string{"user:anne", "user:bob", "user:carl", "user:dora"})}
+	}
+	k := r.Intn(11)
+	switch k {
+	case 0: // the same list again
+	case 1: // only the context of one assertion
+		a.Context = &structpb.Struct{Fields: map[string]*structpb.Value{"x": structpb.NewNumberValue(float64(r.Intn(1000)))}}
+	case 2: // one contextual tuple more
+		a.ContextualTuples = append(a.ContextualTuples, plainCT())
+	case 3: // one contextual tuple less
+		if n := len(a.ContextualTuples); n > 0 {
+			a.ContextualTuples = a.ContextualTuples[:n-1]
+		} else {
+			a.ContextualTuples = append(a.ContextualTuples, plainCT())
+		}
+	case 4: // one contextual tuple changed
+		if n := len(a.ContextualTuples); n > 0 {
+			a.ContextualTuples[r.Intn(n)] = plainCT()
+		} else {
+			a.ContextualTuples = append(a.ContextualTuples, plainCT())
+		}
+	case 5: // only the condition context of a contextual tuple
+		found := false
+		for _, ct := range a.ContextualTuples {
+			if ct.GetCondition() != nil {
+				ct.Condition.Context = &structpb.Struct{Fields: map[string]*structpb.Value{"x": structpb.NewNumberValue(float64(r.Intn(90)))}}
+				found = true
+				break
+			}
+		}
+		if !found {
+			ct := plainCT()
+			ct.Condition = &openfgav1.RelationshipCondition{Name: "cond1", Context: &structpb.Struct{Fields: map[string]*structpb.Value{"x": structpb.NewNumberValue(float64(r.Intn(90)))}}}
+			a.ContextualTuples = append(a.ContextualTuples, ct)
+		}
+	case 6: // only the expectation
+		a.Expectation = !a.Expectation
+	case 7: // only the order
+		if len(out) > 1 {
+			j := (i + 1 + r.Intn(len(out)-1)) % len(out)
+			out[i], out[j] = out[j], out[i]
+		} else {
+			out = append(out, genAssertion(r, 0))
+			out[0], out[1] = out[1], out[0]
+		}
+	case 8: // one assertion twice
+		out = append(out, proto.Clone(a).(*openfgav1.Assertion))
+	case 9: // the same tuple key and expectation twice in ONE request, differing in the context only
+		c := proto.Clone(a).(*openfgav1.Assertion)
+		c.Context = &structpb.Struct{Fields: map[string]*structpb.Value{"y": structpb.NewStringValue(rec.Pick(r, []string{"p", "q", "r"}))}}
+		out = append(out, c)
+	default: // ... differing in the contextual tuples only
+		c := proto.Clone(a).(*openfgav1.Assertion)
+		c.ContextualTuples = append(c.ContextualTuples, plainCT())
+		out = append(out, c)
+	}
+	w.Stat(fmt.Sprintf("gen_list_derived_%d", k), 1)
+	return out
+}
+
 func assertionValid(ts *typesystem.TypeSystem, a *openfgav1.Assertion) bool {
 	if err := validation.ValidateUserObjectRelation(ts, tupleUtils.ConvertAssertionTupleKeyToTupleKey(a.GetTupleKey())); err != nil {
 		return false
@@ -369,6 +439,7 @@ func serverScenario(w *rec.Writer, e *env, d desc) {
 		return models[r.Intn(3)]
 	}
 	var ops []rec.V
+	stored := map[[2]string][]*openfgav1.Assertion{} // last accepted list per (store, model)
 	addModel := func() {
 		s := stores[r.Intn(3)]
 		k := r.Intn(3)
@@ -418,7 +489,12 @@ func serverScenario(w *rec.Writer, e *env, d desc) {
 		case p < 10:
 			s := storeChoices()
 			m := modelChoices(s)
-			as := genAssertions(r, w)
+			var as []*openfgav1.Assertion
+			if prev, ok := stored[[2]string{s, m}]; ok && r.Chance(2, 5) {
+				as = deriveList(r, w, prev)
+			} else {
+				as = genAssertions(r, w)
+			}
 			var ts *typesystem.TypeSystem
 			if k, ok := exists(s, m); ok {
 				ts = typesystems[k]
@@ -426,6 +502,18 @@ func serverScenario(w *rec.Writer, e *env, d desc) {
 			sent := recAsrts(as, ts, w)
 			_, err := e.srv.WriteAssertions(ctx, &openfgav1.WriteAssertionsRequest{StoreId: s, AuthorizationModelId: m, Assertions: cloneAll(as)})
 			cls := sh.ErrClass(err)
+			if err == nil {
+				stored[[2]string{s, m}] = cloneAll(as)
+				// most rewrites are read back at once
+				if r.Chance(1, 2) {
+					res, rerr := e.srv.ReadAssertions(ctx, &openfgav1.ReadAssertionsRequest{StoreId: s, AuthorizationModelId: m})
+					ops = append(ops, rec.L(rec.I(opWrite), rec.S(ids.Canon(s)), rec.S(ids.Canon(m)), sent, rec.I(cls), rec.L()))
+					ops = append(ops, rec.L(rec.I(opRead), rec.S(ids.Canon(s)), rec.S(ids.Canon(m)), rec.L(), rec.I(sh.ErrClass(rerr)), recEncs(res.GetAssertions())))
+					w.Stat("op_read_right_after_write", 1)
+					w.Stat(fmt.Sprintf("op_write_class_%d", cls), 1)
+					continue
+				}
+			}
 			ops = append(ops, rec.L(rec.I(opWrite), rec.S(ids.Canon(s)), rec.S(ids.Canon(m)), sent, rec.I(cls), rec.L()))
 			w.Stat(fmt.Sprintf("op_write_class_%d", cls), 1)
 		default:
@@ -463,6 +551,7 @@ func datastoreScenario(w *rec.Writer, e *env, d desc) {
 	// datastore cannot influence each other
 	prefix := fmt.Sprintf("q%x.", d.Seed)
 	pipes := r.Chance(1, 2)
+	rawStored := map[[2]string][]*openfgav1.Assertion{}
 	var ops []rec.V
 	pick := func(xs []string) string {
 		for {
@@ -487,7 +576,13 @@ func datastoreScenario(w *rec.Writer, e *env, d desc) {
 		s := pick(rawStores)
 		m := pick(rawModels)
 		if r.Chance(1, 2) {
-			as := genAssertions(r, w)
+			var as []*openfgav1.Assertion
+			if prev, ok := rawStored[[2]string{s, m}]; ok && r.Chance(1, 2) {
+				as = deriveList(r, w, prev)
+			} else {
+				as = genAssertions(r, w)
+			}
+			rawStored[[2]string{s, m}] = cloneAll(as)
 			sent := recAsrts(as, nil, nil)
 			err := e.raw.WriteAssertions(ctx, prefix+s, m, cloneAll(as))
 			ops = append(ops, rec.L(rec.I(opWrite), rec.S(s), rec.S(m), sent, rec.I(sh.ErrClass(err)), rec.L()))
